@@ -48,7 +48,17 @@ def argv(cmd):
         return ["run", d]
     if cmd["op"] == "run2":
         return ["run", f"{d}/theory.yaml", f"{d}/operator.yaml"]
+    if cmd["op"] == "run2x":   # the operator card lives in the other location
+        return ["run", f"{d}/theory.yaml", f"{DIRS[other(cmd['l'])]}/operator.yaml"]
     return ["run", f"{d}/theory.yaml", f"{d}/operator.yaml", "out.tar"]
+
+
+def other(l):
+    return "D" if l == "rc" else "rc"
+
+
+def target(cmd):
+    return "X" if cmd["op"] == "run3" else (other(cmd["l"]) if cmd["op"] == "run2x" else cmd["l"])
 
 
 def text(cmd):
@@ -234,8 +244,8 @@ def run_sequence(args):
                 # the example cards take minutes to solve: continue with tiny ones
                 write_cards(d, *tiny)
             if cmd["op"] != "gen" and p.returncode == 0:
-                tgt = out_path(root, "X" if cmd["op"] == "run3" else cmd["l"])
-                if post["out"]["X" if cmd["op"] == "run3" else cmd["l"]] == "eko":
+                tgt = out_path(root, target(cmd))
+                if post["out"][target(cmd)] == "eko":
                     try:
                         same = digest_archive(tgt) == ref and load_cards(d) is not None
                     except Exception as ex:  # noqa: BLE001
